@@ -315,6 +315,15 @@ def oracle(c):
         return "config accepted an unknown key"
     except KeyError:
         pass
+    for key in ("eval_unseen_categories", "Eval_Unseen_Categories", "EVAL_UNSEEN_CATEGORIES "):
+        try:
+            formulae.config[key] = "silent"
+        except KeyError:
+            continue
+        except Exception as e:  # noqa
+            return f"config key {key!r} raises {type(e).__name__} instead of KeyError"
+        object.__setattr__(formulae.config, "EVAL_UNSEEN_CATEGORIES", before)
+        return f"config accepted the undocumented key {key!r}"
     # every way of setting an option validates: item syntax, attribute syntax, the constructor
     Config = type(formulae.config)
     for how, setter in (("attribute", lambda v: setattr(formulae.config, "EVAL_UNSEEN_CATEGORIES", v)),
